@@ -215,4 +215,99 @@ def rule_e(prog, rep):
         rep.violation('C05.e', 'ls_path', g.loc, 'ls no longer maps a missing node to NoSuchValue', key='C05.e/ls_path')
 
 
-RULES = [('C05.a', rule_a), ('C05.b', rule_b), ('C05.c', rule_c), ('C05.e', rule_e)]
+def rule_f(prog, rep):
+    rep.rule('C05.f', 'T6', 'the ls-subscriber tree is walked in lockstep with the data tree: every call of a store traversal that '
+             'carries `subscribers: Option<&SubscribersNode>` passes, when it descends into child k of the data node, '
+             '`subscribers.and_then(|s| s.tree.get(k))` for the same k, and passes `subscribers` unchanged when it stays on the '
+             'same node; the public entry points start with the root of both trees (or None for pure reads)')
+    crate = prog.crate(WB)
+    sfns = [f for f in crate.top_fns() if f.path.startswith(STORE + '::')]
+    carriers = {}
+    for f in sfns:
+        names = [p.get('name') for p in f.params if isinstance(p, dict)]
+        if 'subscribers' in names and 'node' in names:
+            carriers[f.path] = (names.index('node'), names.index('subscribers'))
+    n = 0
+    for g in sfns:
+        b = None
+        for nd, anc in crate.walk_fn(g):
+            if nd.get('k') != 'call' or callee(nd) not in carriers:
+                continue
+            pn, ps = carriers[callee(nd)]
+            b = b or Bindings(crate, g)
+            n += 1
+            an, asub = nd['args'][pn], nd['args'][ps]
+            on = b.origins(an)
+            inst = f'{short(g.path)}->{short(callee(nd))}'
+            sub_e = b.deref_local(asub)
+            os_ = b.origins(asub)
+            descends = any('get_child' in x or 'sub_tree' in x for x in on)
+            if not descends:
+                top = all(x in ('param(node)',) for x in on)
+                root = all(x.startswith('param(self).data') for x in on)
+                if top and os_ == {'param(subscribers)'}:
+                    rep.ok('C05.f', inst, loc(g, nd), 'same node, same subscriber node')
+                elif root and (all(x.startswith('param(self).subscribers') for x in os_) or all('None' in x for x in os_)):
+                    rep.ok('C05.f', inst, loc(g, nd), 'entry point: root of the data tree with ' + ('the root of the subscriber tree'
+                           if all(x.startswith('param(self).subscribers') for x in os_) else 'no subscribers (read only)'))
+                else:
+                    rep.violation('C05.f', inst, loc(g, nd), f'node <- {sorted(on)} but subscribers <- {sorted(os_)}',
+                                  key=f'C05.f/{inst}/same-node', expected='subscribers passed on unchanged')
+                continue
+            # descending: subscribers.and_then(|s| s.tree.get(k))
+            good = False
+            why = f'subscribers <- {sorted(os_)}'
+            if isinstance(sub_e, dict) and sub_e.get('k') == 'call' and short(callee(sub_e)) == 'and_then' and \
+                    b.origins(sub_e['args'][0]) == {'param(subscribers)'} and sub_e['args'][1].get('k') == 'closure':
+                cl = crate.closure(sub_e['args'][1]['def'])
+                gets = [x for x, _ in walk(cl.hir) if x.get('k') == 'call' and short(callee(x)) == 'get' and
+                        any(y.get('k') == 'field' and y['name'] == 'tree' for y, _ in walk(x['args'][0]))]
+                if len(gets) == 1:
+                    k2 = b.origins(gets[0]['args'][1])
+                    # the data key
+                    child = b.deref_local(an)
+                    k1 = None
+                    src = child
+                    while isinstance(src, dict) and src.get('k') in ('try', 'ref', 'await'):
+                        src = src['e']
+                    if any('sub_tree' in x for x in on):
+                        k1 = {x[:-3] + '[0]' for x in on if x.endswith('[1]')}
+                    else:
+                        gc = [x for x in on if 'get_child' in x]
+                        # find the get_child call the child came from
+                        for x, _ in crate.walk_fn(g):
+                            if x.get('k') == 'call' and short(callee(x)) in ('get_child', 'get_child_mut'):
+                                if any(o.startswith(f'call({callee(x)})') for o in on):
+                                    k1 = b.origins(x['args'][1])
+                    if k1 is not None and k1 == k2:
+                        good = True
+                    else:
+                        why = f'data child key <- {sorted(k1 or [])}, subscriber child key <- {sorted(k2)}'
+            if good:
+                rep.ok('C05.f', inst, loc(g, nd), 'descends into the same child of both trees')
+            else:
+                rep.violation('C05.f', inst, loc(g, nd), 'descends into a child of the data tree without descending into the same child '
+                              f'of the subscriber tree ({why})', key=f'C05.f/{inst}/lockstep',
+                              expected='subscribers.and_then(|s| s.tree.get(<same key>))')
+    rep.floor('C05.f', n, 12, 'traversal call sites carrying subscribers')
+    # Store::insert walks both trees itself
+    f = crate.fn(f'{STORE}::insert')
+    b = Bindings(crate, f)
+    loops = [nd for nd, a in crate.walk_fn(f) if nd.get('k') == 'for']
+    good = False
+    if loops:
+        asg = [x for x, _ in walk(loops[0]['body']) if x.get('k') == 'assign' and x['l'].get('name') == 'current_subscribers']
+        gc = [x for x, _ in walk(loops[0]['body']) if x.get('k') == 'call' and short(callee(x)) == 'get_or_create_child']
+        if len(asg) == 1 and len(gc) == 1:
+            r = asg[0]['r']
+            if r.get('k') == 'call' and short(callee(r)) == 'and_then' and r['args'][1].get('k') == 'closure':
+                cl = crate.closure(r['args'][1]['def'])
+                gets = [x for x, _ in walk(cl.hir) if x.get('k') == 'call' and short(callee(x)) == 'get']
+                good = len(gets) == 1 and b.origins(gets[0]['args'][1]) == b.origins(gc[0]['args'][1])
+    if good:
+        rep.ok('C05.f', 'insert:lockstep', f.loc, 'current_subscribers advances with the same path element as current_node')
+    else:
+        rep.violation('C05.f', 'insert:lockstep', f.loc, 'insert does not advance the subscriber cursor with the data cursor', key='C05.f/insert/lockstep')
+
+
+RULES = [('C05.f', rule_f), ('C05.a', rule_a), ('C05.b', rule_b), ('C05.c', rule_c), ('C05.e', rule_e)]
